@@ -77,7 +77,7 @@ def special(objs, cls, want_template=True):
 def run():
     objs, rc, err = astlib.ast_dump('/repo/src/kdbindings/utils.h', 'KDBindings::Private::')
     entries = []
-    offset, by_value, order_ok, count_expr = 99, False, False, '?'
+    offset, by_value, order_ok, count_expr, single_return = 99, False, False, "?", False
     for o in objs:
         if o.get('kind') != 'FunctionTemplateDecl':
             continue
@@ -121,6 +121,12 @@ def run():
             if cons is not None:
                 mm = re.search(r'make_index_sequence<(.*)>$', cons['type']['qualType'])
                 count_expr = mm.group(1).replace(' ', '') if mm else '?'
+            # the whole body is `return bind_first_helper(...)`: no other path builds the callable that connect() stores
+            body = first(fd, lambda x: x.get('kind') == 'CompoundStmt')
+            stmts = body.get('inner', []) if body else []
+            single_return = len(stmts) == 1 and stmts[0].get('kind') == 'ReturnStmt' and \
+                first(stmts[0], lambda y: y.get('kind') == 'UnresolvedLookupExpr' and y.get('name') == 'bind_first_helper') is not None and \
+                first(fd, lambda y: y.get('kind') in ('LambdaExpr', 'IfStmt', 'ConditionalOperator')) is None
     # special members and the r-value-reference static_assert
     sobjs, _, _ = astlib.ast_dump('/repo/src/kdbindings/binding.h', 'KDBindings::')
     facts = {}
@@ -142,6 +148,7 @@ def run():
     lines.append(f'Definition bound_args_by_value : bool := {b(by_value)}.')
     lines.append(f'Definition bind_argument_order_ok : bool := {b(order_ok)}.')
     lines.append(f'Definition index_count_expr : string := "{count_expr}".')
+    lines.append(f'Definition bind_first_is_one_return_of_helper : bool := {b(single_return)}.')
     for cls, (cc, ca) in facts.items():
         lines.append(f'Definition {cls}_copy_ctor_deleted : bool := {b(cc)}.')
         lines.append(f'Definition {cls}_copy_assign_deleted : bool := {b(ca)}.')
